@@ -665,7 +665,17 @@ func NewScript() *Script {
 var identRepl = strings.NewReplacer("*", "p", "(", "_", ")", "_", ".", "_", "/", "_", " ", "_", "$", "_", "[", "_", "]", "_", ",", "_", "#", "_", "-", "_", ":", "_", "@", "_", "\"", "_", "{", "_", "}", "_", "|", "_", "'", "_", "<", "_", ">", "_", "=", "_", "!", "_", "~", "_", "+", "_", "&", "_", "%", "_", "^", "_", "\\", "_", ";", "_", "?", "_")
 
 // Ident makes a string safe as an SMT-LIB simple symbol.
-func Ident(s string) string { return identRepl.Replace(s) }
+func Ident(s string) string {
+	s = identRepl.Replace(s)
+	// SMT-LIB simple symbols are ASCII: anything else becomes '_'
+	out := []byte(s)
+	for i, c := range out {
+		if c < 0x21 || c > 0x7e || c == '|' || c == '\\' || c == '"' || c == ';' || c == '(' || c == ')' {
+			out[i] = '_'
+		}
+	}
+	return string(out)
+}
 
 // Fresh returns a new declared constant.
 func (s *Script) Fresh(hint string, sort Sort) *Term {
